@@ -640,6 +640,73 @@ func genHistory(rng *rand.Rand, id int, nsteps int) HistCase {
 	return hc
 }
 
+// exhaustiveRootSets: every root list of length <= 3 over the IDs {"a","b",""} with every choice of
+// active flags, as CAOpSetRoots with the current / zero / a stale index, on three base states
+// (no roots; one root; a rotated pair). Thorough tier only.
+func exhaustiveRootSets(emit func(interface{})) int {
+	ids := []string{"a", "b", ""}
+	type ent struct {
+		id     string
+		active bool
+	}
+	var lists [][]ent
+	var rec func(cur []ent, k int)
+	rec = func(cur []ent, k int) {
+		lists = append(lists, append([]ent(nil), cur...))
+		if k == 0 {
+			return
+		}
+		for _, id := range ids {
+			for _, a := range []bool{true, false} {
+				rec(append(cur, ent{id, a}), k-1)
+			}
+		}
+	}
+	rec(nil, 3)
+	bases := [][]*structs.CARequest{
+		{},
+		{{Op: structs.CAOpSetRoots, Index: 0, Roots: []*structs.CARoot{{ID: "a", Active: true, Name: "n", RootCert: "c"}}}},
+		{{Op: structs.CAOpSetRoots, Index: 0, Roots: []*structs.CARoot{{ID: "a", Active: true, Name: "n", RootCert: "c"}}},
+			{Op: structs.CAOpSetRoots, Index: 1, Roots: []*structs.CARoot{{ID: "a", Name: "n", RootCert: "c"}, {ID: "b", Active: true, Name: "n", RootCert: "c"}}}},
+	}
+	n := 0
+	for bi, base := range bases {
+		for _, l := range lists {
+			for ci := 0; ci < 3; ci++ {
+				m := newMachine()
+				hc := HistCase{Type: "hist", Source: "exhaustive", ID: n, ToCoq: true}
+				apply := func(req *structs.CARequest) {
+					m.idx++
+					buf, err := structs.Encode(structs.ConnectCARequestType, req)
+					if err != nil {
+						panic(err)
+					}
+					resp := m.f.Apply(&raft.Log{Index: m.idx, Term: 1, Type: raft.LogCommand, Data: buf})
+					hc.Steps = append(hc.Steps, Step{Idx: m.idx, Op: opOf(req), Out: outOf(resp), Dump: m.dump()})
+				}
+				for _, r := range base {
+					apply(r)
+				}
+				cur := m.dump().RootsIdx
+				cidx := []uint64{cur, 0, cur + 1}[ci]
+				if bi == 2 && ci == 2 {
+					cidx = 1 // a stale index
+				}
+				var roots []*structs.CARoot
+				for _, e := range l {
+					roots = append(roots, &structs.CARoot{ID: e.id, Active: e.active, Name: "n", RootCert: "c"})
+				}
+				apply(&structs.CARequest{Op: structs.CAOpSetRoots, Index: cidx, Roots: roots})
+				m.close()
+				hc.Oracle, hc.OracleSg = histOracle(hc.Steps)
+				emit(hc)
+				n++
+			}
+		}
+	}
+	return n
+}
+
 // ------------------------------------------------------------------ part (a): CSR generation
 
 var (
@@ -745,29 +812,33 @@ var nodeNames = []string{"n1", "n2", "node-3", "N1"}
 // segment returns a raw (as written in the URI) spelling of a name, and the generator's label.
 func segment(rng *rand.Rand, name string) (string, string) {
 	switch p := rng.Intn(100); {
-	case p < 62:
+	case p < 52:
 		return name, ""
-	case p < 72:
+	case p < 62:
 		return escVary(rng, name, false), "+esc"
-	case p < 76:
+	case p < 66:
 		return escVary(rng, name, true), "+escall"
-	case p < 81:
+	case p < 71:
 		return name + "%2F" + []string{"x", "id", "svc", "dc"}[rng.Intn(4)], "+slash"
-	case p < 84:
+	case p < 74:
 		return name + "%2f..%2F" + name, "+slash"
-	case p < 87:
+	case p < 77:
 		return caseVary(rng, name), "+case"
-	case p < 89:
+	case p < 81:
 		return name + "%25" + "41", "+pct"
-	case p < 91:
+	case p < 85:
+		// a letter encoded twice: decoding once gives a name with a "%", decoding twice another name
+		k := rng.Intn(len(name))
+		return name[:k] + fmt.Sprintf("%%25%02X", name[k]) + name[k+1:], "+pct2"
+	case p < 87:
 		return name + []string{" ", "\"", "<x>", "^", "`", "{}", "|"}[rng.Intn(7)], "+invalidchar"
-	case p < 93:
+	case p < 90:
 		return name + "%2F" + "x" + []string{" ", "^", "|"}[rng.Intn(3)], "+slash+invalidchar"
-	case p < 95:
+	case p < 93:
 		return name + []string{"%", "%2", "%zz", "%G0"}[rng.Intn(4)], "+badesc"
-	case p < 97:
+	case p < 96:
 		return name + []string{";p", ",q", "=", "@", ":", "+", "$", "&", "!", "*", "'", "(", ")", "~", "[", "]"}[rng.Intn(16)], "+reserved"
-	case p < 98:
+	case p < 97:
 		return name + "%00", "+nul"
 	case p < 99:
 		return name + "%C3%A9", "+utf8"
@@ -993,8 +1064,14 @@ func genAuthz(rng *rand.Rand, intended []genURI) authzSpec {
 		}
 	}
 	for _, g := range intended {
-		// bias: mostly grant what is asked, sometimes a near miss
+		// bias: mostly grant what is asked, sometimes a near miss: the segment as written, decoded
+		// once (what the code must ask about), decoded twice, lower-cased
 		dec := decodedCandidates(g.raw)
+		for _, n := range nearMisses(g.raw) {
+			if rng.Intn(100) < 30 {
+				dec = append(dec, n)
+			}
+		}
 		switch g.kind {
 		case "service":
 			for _, n := range dec {
@@ -1078,6 +1155,32 @@ func hclSafe(s string) bool {
 	return true
 }
 
+// nearMisses: spellings of the path segments other than the single decoding.
+func nearMisses(raw string) []string {
+	var out []string
+	i := strings.Index(raw, "://")
+	rest := raw
+	if i >= 0 {
+		rest = raw[i+3:]
+	}
+	for _, s := range strings.Split(rest, "/") {
+		d, err := url.PathUnescape(s)
+		if err != nil {
+			continue
+		}
+		if s != d {
+			out = append(out, s)
+		}
+		if d2, err := url.PathUnescape(d); err == nil && d2 != d {
+			out = append(out, d2)
+		}
+		if l := strings.ToLower(d); l != d {
+			out = append(out, l)
+		}
+	}
+	return out
+}
+
 // decodedCandidates: every path segment of a raw URI string, percent-decoded when possible.
 func decodedCandidates(raw string) []string {
 	var out []string
@@ -1103,6 +1206,10 @@ func candidateNames(us []*url.URL) []string {
 				set[s] = true
 				if d, err := url.PathUnescape(s); err == nil {
 					set[d] = true
+					set[strings.ToLower(d)] = true
+					if d2, err := url.PathUnescape(d); err == nil {
+						set[d2] = true
+					}
 				}
 				set[strings.ToLower(s)] = true
 			}
@@ -1626,7 +1733,7 @@ func main() {
 	if err != nil {
 		panic(err)
 	}
-	worlds, nsign, hists, hlen := 16, 40, 160, 14
+	worlds, nsign, hists, hlen := 20, 50, 160, 14
 	if *tier == "thorough" {
 		worlds, nsign, hists, hlen = 120, 60, 2500, 18
 	}
@@ -1636,6 +1743,9 @@ func main() {
 	}
 	for i := 0; i < hists; i++ {
 		emit(genHistory(rng, i, 4+rng.Intn(hlen)))
+	}
+	if *tier == "thorough" {
+		exhaustiveRootSets(emit)
 	}
 }
 
